@@ -47,7 +47,7 @@ func runC12(c *Ctx) {
 func c12Lane(c *Ctx, fn *ssa.Function) {
 	r := c.R
 	b := ana.NewBuilder(c.P, fn)
-	I := "ind<+1>(bin<->(243, bin<->(p2, 1)))"
+	I := "ind<+1>(bin<->(244, p2))" // canonical form of 243-(s-1)
 	V := "phi(0, bin<|>(cycle, bin<^>(load(iaddr(p0, " + I + ")), load(iaddr(p1, " + I + ")))))"
 	W := "bin<|>(" + V + ", bin<^>(load(iaddr(p0, bin<->(243, p2))), load(iaddr(p1, bin<->(243, p2)))))"
 	maxu := "18446744073709551615"
@@ -125,7 +125,7 @@ func c12Extract(c *Ctx, fn *ssa.Function) {
 	for _, e := range ana.Exits(fn) {
 		if !e.Panic {
 			t := b.Of(e.Results[0], e.Instr)
-			_, okRet = ana.Match("call<"+v2Pkg+"toInt>(slice(obj(alloc<[243]int8>, maybe(_)), 0, none))", t)
+			_, okRet = ana.Match("call<"+c12Name(c, "toInt")+">(slice(obj(alloc<[243]int8>, maybe(_)), 0, none))", t)
 		}
 	}
 	r.Check(okLoop && stored && okRet, "C12.lane-extract.term", c.P.Pos(fn.Pos()), "stateToInt: for j = 242..0 trits[j] = int8((h[j]>>idx)&1) − int8((l[j]>>idx)&1); result toInt(trits[:]) (loop=%v store=%v ret=%v)", okLoop, stored, okRet)
@@ -140,7 +140,7 @@ func c12ToInt(c *Ctx) {
 	fn := f.Function
 	b := ana.NewBuilder(c.P, fn)
 	// digit map
-	if d := c.P.Func("pkg/pow/v2", "tritToUint"); d != nil {
+	if d := c.helper("pkg/pow/v2", "tritToUint"); d != nil {
 		r.Fn(ana.ShortFunc(d))
 		db := ana.NewBuilder(c.P, d)
 		vs := &ana.VSA{B: db, Tracked: []string{"p0"}, Ranges: [][2]int64{{-1, 1}}}
@@ -316,7 +316,7 @@ func c12Thresholds(c *Ctx) {
 				}
 				t := db.Of(e.Results[0], e.Instr)
 				blk := "slice(obj(alloc<[243]int8>, call<github.com/iotaledger/iota.go/encoding/b1t6.Encode>(slice(self, 0, 243), p0), call<*>(slice(slice(self, 0, 243), call<github.com/iotaledger/iota.go/encoding/b1t6.Encode>(_, p0), none), p1)), 0, 243)"
-				want := "obj(call<" + v2Pkg + "toInt>(ext#0(call<*>(obj(call<github.com/iotaledger/iota.go/curl.NewCurlP81>, call<*>(self, " + blk + ")), 243))), call<(*math/big.Int).Quo>(self, load(global<" + v2Pkg + "maxHash>), self))"
+				want := "obj(call<" + c12Name(c, "toInt") + ">(ext#0(call<*>(obj(call<github.com/iotaledger/iota.go/curl.NewCurlP81>, call<*>(self, " + blk + ")), 243))), call<(*math/big.Int).Quo>(self, load(global<" + v2Pkg + "maxHash>), self))"
 				_, ok := ana.Match(want, t)
 				r.Check(ok, "C12.thresholds.difficulty", c.ipos(e.Instr), "difficulty = Quo(3^243, toInt(Curl-P-81(b1t6(digest) ‖ b1t6(LE nonce)))) — the same toInt the lane test uses %s", ana.Explain(want, t))
 			}
@@ -376,10 +376,10 @@ func c12Worker(c *Ctx) {
 		for _, ins := range blk.Instrs {
 			if st, ok := ins.(*ssa.Store); ok {
 				t := mb.Of(st.Val, st)
-				if matches("call<"+v2Pkg+"sufficientTrailingZeros>(p2, p3)", t) {
+				if matches("call<"+c12Name(c, "sufficientTrailingZeros")+">(p2, p3)", t) {
 					sCell = true
 				}
-				if matches("call<"+v2Pkg+"targetHash>(p2, p3)", t) {
+				if matches("call<"+c12Name(c, "targetHash")+">(p2, p3)", t) {
 					tCell = true
 				}
 			}
@@ -389,4 +389,12 @@ func c12Worker(c *Ctx) {
 	mineResultFlow(c, "C12", mine, fn, "call<golang.org/x/crypto/blake2b.Sum256>(p2)")
 	// no shared scratch
 	pureScan(c, "C12.no-shared-scratch", fn, c.P.Func("pkg/pow/v2", "Score"))
+}
+
+// c12Name is the full name of a v2 helper as it is called on the analysed tree.
+func c12Name(c *Ctx, name string) string {
+	if f := c.helper("pkg/pow/v2", name); f != nil {
+		return f.String()
+	}
+	return "<missing " + name + ">"
 }
